@@ -4,12 +4,13 @@ from ..pybuild import PyFile
 from .common import Run, all_flags, corpus_cases, generic_replay, parse_list
 
 PROP = "C16"
-MODULE = "PLS.Props.C16C"     # imports PLS.Props.C16T, which imports PLS.Props.C16
+MODULE = "PLS.Props.C16P"     # imports PLS.Props.C16C (C16T, C16) and PLS.Props.C19
 THEOREMS = ["PLS.C16_scope_order", "PLS.C16_scope_table", "PLS.C16_mismatch_sound", "PLS.C16_mismatch_complete",
             "PLS.C16_mismatch_iff_resolved", "PLS.C16_scopeRes_mem", "PLS.C16_unknown_deps_dropped", "PLS.C16_known_deps_kept",
             "PLS.C16_reported_cycles_are_cycles", "PLS.C16_every_cycle_is_hit", "PLS.C16_every_cycle_meets_a_report",
             "PLS.DfsC.inv3_step", "PLS.DfsC.key_inj", "PLS.DfsS.inv2_step", "PLS.DfsS.sound_step", "PLS.DfsS.reported_closed",
-            "PLS.C12_dfs_terminates", "PLS.C12_dfs_fuel_irrelevant"]
+            "PLS.C12_dfs_terminates", "PLS.C12_dfs_fuel_irrelevant",
+            "PLS.C16_published_mismatches", "PLS.C16_published_mismatch_count", "PLS.C16_published_cycle_in_file"]
 # where the scope verdict can deviate since the E14 repair: exactly where resolution itself does
 RESFLAGS = {"imp-first", "alias", "multiline-self", "imp-order-sensitive", "import-cycle", "unparsable-conftest"}
 RULE = ("random dependency graphs over 3-6 fixture names spread over root conftest, sub conftest, a test module and a "
